@@ -52,6 +52,18 @@ pub struct SessP {
     pub tunnels: Vec<TunP>,
     /// an idle session is closed by its client at this instant if it is still there
     pub client_closes_at_us: u64,
+    /// HTTP/2: one more request (CONNECT _check) is sent this long after the submission
+    /// (negative: before it). Around zero it races the GOAWAY: it may be served or refused,
+    /// the session must wind down all the same
+    #[serde(default = "default_late_offset")]
+    pub late_offset_us: i64,
+    /// HTTP/2: one-way latency between client and endpoint (0 = none): bytes are in flight
+    #[serde(default)]
+    pub latency_us: u64,
+}
+
+fn default_late_offset() -> i64 {
+    5_000
 }
 
 #[derive(Clone, Debug, Serialize, Deserialize)]
@@ -138,6 +150,8 @@ impl Scenario for ShutdownScn {
                         })
                         .collect(),
                     client_closes_at_us: submit_at_us + completion_after_us + rng.size(1_000, 400_000),
+                    late_offset_us: if rng.chance(1, 2) { 5_000 } else { *rng.pick(&[0i64, 0, -300, 300, 700, 1_000, -1_000, 2_000, -2_000, 2_900, -2_900]) },
+                    latency_us: if h2 && rng.chance(1, 2) { *rng.pick(&[1_000u64, 3_000]) } else { 0 },
                 }
             })
             .collect();
@@ -508,7 +522,14 @@ async fn run(plan: SPlan) -> Obs {
 }
 
 async fn session_h2(s: usize, sp: &SessP, peer: PeerConn, submit_at: u64, seed: u64, o: Sh<Obs>) {
-    let c = match h2_connect(peer.clone(), H2Params { initial_window: 1 << 20, conn_window: 4 << 20, ..Default::default() }, Rng::new(seed ^ s as u64)).await {
+    let params = H2Params { initial_window: 1 << 20, conn_window: 4 << 20, ..Default::default() };
+    let connected = if sp.latency_us > 0 {
+        let io = crate::world::PeerIo { conn: peer.clone(), seg: crate::world::Cut::All, rng: Rng::new(seed ^ s as u64), pace: None };
+        crate::actors::h2_connect_io(crate::actors::with_latency(io, sp.latency_us, sp.latency_us), params).await
+    } else {
+        h2_connect(peer.clone(), params, Rng::new(seed ^ s as u64)).await
+    };
+    let c = match connected {
         Ok(c) => c,
         Err(e) => {
             o.lock().unwrap().sessions[s].h2_end = Some(Err(e));
@@ -581,12 +602,15 @@ async fn session_h2(s: usize, sp: &SessP, peer: PeerConn, submit_at: u64, seed: 
     let late = {
         let mut send = send.clone();
         let o = o.clone();
-        let has_tunnel_open_then = sp.tunnels.iter().any(|t| t.end_at_us > submit_at + 6_000) && sp.open_at_us + 25_000 < submit_at;
+        let racing = sp.late_offset_us != 5_000;
+        // (a racing request is also sent on an idle session)
+        let has_tunnel_open_then = (racing || sp.tunnels.iter().any(|t| t.end_at_us > submit_at + 6_000)) && sp.open_at_us + 25_000 < submit_at;
+        let at = (submit_at as i64 + sp.late_offset_us).max(0) as u64;
         tokio::spawn(async move {
             if !has_tunnel_open_then {
                 return;
             }
-            sleep_until_us(submit_at + 5_000).await;
+            sleep_until_us(at).await;
             let req = http::Request::builder()
                 .method("CONNECT")
                 .uri("_check")
@@ -825,7 +849,10 @@ fn judge(plan: &SPlan, o: &Obs, out: &mut Outcome) {
                 out.violate("C19", "shutdown:h2:not-graceful", format!("session {}: the client's connection ended with an error instead of GOAWAY + close: {}", s, e));
             }
             if let Some(Ok(st)) = &so.late_request {
-                out.violate("C19", "shutdown:h2:new-request-served-after-submission", format!("session {}: a request sent 5 ms after the submission was answered {}", s, st));
+                // (a request sent within 3 ms of the submission may have been there first)
+                if sp.late_offset_us >= 3_000 {
+                    out.violate("C19", "shutdown:h2:new-request-served-after-submission", format!("session {}: a request sent {} us after the submission was answered {}", s, sp.late_offset_us, st));
+                }
             }
         }
     }
